@@ -23,7 +23,7 @@ LEVEL = "exploration"
 BUDGET = {"quick": 60, "thorough": 1200}
 RUN_TIMEOUT = 150
 SELFTEST_PAIRS = {"quick": 10, "thorough": 30}
-PROBES = ["first_use_of_reloaded_extractor_module", "two_tasks_in_charmap_section", "exception_inside_section", "failing_input_in_history",
+PROBES = ["pct_style_schedule", "first_use_of_reloaded_extractor_module", "two_tasks_in_charmap_section", "exception_inside_section", "failing_input_in_history",
           "lock_contended", "sequential_history", "aes_pdf_in_workload", "mixed_formats", "archive_7z_in_workload", "systematic_switch_in_section", "cold_history"]
 RULE = ("one run = k real threads x 1-3 real extractions (or one sequential history of 2-10) under a seeded pre-emptive schedule; "
         "distinct non-trivial = distinct projection of the event log onto (task, line) events inside the char-map patch section plus "
@@ -367,6 +367,12 @@ def gen_case(rng: random.Random, tier: str) -> dict:
         # lazily on first use (compiled patterns, lookup tables, caches) is built while the threads interleave
         case["cold_modules"] = True
         case["p_call"] = rng.choice([1 / 2, 1 / 3, 1 / 5])
+        case["p_line"] = rng.choice([1 / 5, 1 / 20, 1 / 60])
+    if mode == "threads" and rng.random() < (0.6 if case.get("cold_modules") else 0.25):
+        # few, long-lived pre-emptions (PCT style): the only switches are at 1-3 seeded step numbers, and whoever gets the CPU keeps it --
+        # a thread parked in the middle of building shared state stays parked while another one runs to completion
+        d = rng.choice([1, 1, 2, 3])
+        case["change_points"] = sorted({int(10 ** rng.uniform(0, 4.3)) for _ in range(d)})
     return case
 
 
@@ -519,6 +525,9 @@ def run_case(case: dict) -> dict:
     sref = [None]
     sched = S.Sched(rng=random.Random(case["sched_seed"]) if not case.get("schedule") else None,
                     schedule=case.get("schedule"), p_call=case["p_call"], p_line=case["p_line"], log=log)
+    if case.get("change_points"):
+        sched.change_points = set(case["change_points"])
+        probes["pct_style_schedule"] = 1
     sref[0] = sched
     locks = S.wrap_package_locks(lambda: sref[0])
     if case.get("schedule"):
@@ -620,6 +629,8 @@ def run_case(case: dict) -> dict:
     if case.get("line_granularity"):
         from sharepoint2text.parsing.extractors.pdf import pdf_extractor as pe
         line_codes = line_codes + S.code_objects_of(pe)
+    if extra_codes:
+        line_codes = line_codes + extra_codes  # first use: a thread can lose the CPU between any two lines of the re-executed modules
     ins.install(call_codes, line_codes)
     try:
         status = sched.run(stall_s=100.0)
